@@ -62,6 +62,7 @@ func FuzzC10_LoadSearch(f *testing.F) {
 		"- command: \"a\\0b find\"\n  description: \"\\0\"\n",
 		"no such file or directory", "permission denied", "- [", "&a [*a,*a]", "- command: !!binary \"/w==\"\n", "[]", "",
 		"- command: x\n  keywords: y\n", "- command: {a: b}\n", "---\n- command: a\n---\n- command: b\n",
+		"- {\"no such file or directory\": 1, \"no such file or directory\": 2}", "- command: a\n---\n- [\n",
 	}
 	for i, s := range seeds {
 		f.Add([]byte(s), []string{"find", "a\x00", "", "tar zip", "\xff"}[i%5], uint64(i*37), int64([]int{5, 0, -1, 1 << 62, math.MaxInt}[i%5]), int64(i%4))
